@@ -26,6 +26,12 @@ pub enum Ev {
     Close(u8),
     Remove(u8),
     Poll,
+    /// Poll during which the receiving task's cooperative budget is exhausted: every stream that is
+    /// polled wakes its own waker synchronously and returns Pending (what tokio's I/O resources do
+    /// when the budget is used up and the future is not driven by a worker thread, and what any
+    /// `yield_now`-style stream does). Legal behaviour for a stream; the queue must hand control
+    /// back to the executor instead of re-polling the stream for ever.
+    PollX,
     /// Poll during which `ev` is executed re-entrantly: at the `nth` inner
     /// stream poll, `pos` 0 = before the stream's own body, 1 = after it,
     /// 2 = at the fq_point hook (after the Pending re-insert, lock released)
@@ -93,6 +99,8 @@ struct Shared {
     inner_polls: u8,
     points: u8,
     items: Vec<u8>,
+    exhausted: bool,
+    polls_while_exhausted: u32,
 }
 
 #[derive(Clone, Debug)]
@@ -112,6 +120,8 @@ pub struct Config {
     pub fairness: bool,
     pub fair_bound: u8,
     pub block_on_no_clients: bool,
+    /// include the PollX event (streams that yield cooperatively)
+    pub coop_yield: bool,
 }
 
 pub struct SStream {
@@ -131,6 +141,31 @@ impl Stream for SStream {
             n
         };
         run_window(&self.sh, &self.handle, nth, 0);
+        // cooperative budget exhausted: wake ourselves and say Pending, whatever is available
+        let yielding = {
+            let mut g = self.sh.lock().unwrap();
+            if g.exhausted {
+                g.polls_while_exhausted += 1;
+                if g.polls_while_exhausted > 100 {
+                    // the queue keeps re-polling a stream that keeps yielding: it would never return
+                    g.exhausted = false;
+                    g.model.violations.push((
+                        "livelock-on-self-waking-stream".into(),
+                        format!("within ONE poll of the receiver, stream {} was polled more than 100 times although every time it woke its waker and returned Pending (cooperative yield): poll_next never hands control back to the executor", id),
+                    ));
+                    false
+                } else {
+                    true
+                }
+            } else {
+                false
+            }
+        };
+        if yielding {
+            cx.waker().wake_by_ref();
+            run_window(&self.sh, &self.handle, nth, 1);
+            return Poll::Pending;
+        }
         let r = {
             let mut g = self.sh.lock().unwrap();
             let lp = g.last_popped;
@@ -325,6 +360,8 @@ impl Sim {
             inner_polls: 0,
             points: 0,
             items: cfg.items.clone(),
+            exhausted: false,
+            polls_while_exhausted: 0,
         }));
         let rw = Arc::new(RecvWaker {
             sh: sh.clone(),
@@ -453,6 +490,24 @@ impl Sim {
             Ev::Close(i) => apply_simple(&self.sh, &self.handle, WinEv::Close(i)),
             Ev::Remove(i) => apply_simple(&self.sh, &self.handle, WinEv::Remove(i)),
             Ev::Poll => self.poll(Vec::new()),
+            Ev::PollX => {
+                {
+                    let mut g = self.sh.lock().unwrap();
+                    g.exhausted = true;
+                    g.polls_while_exhausted = 0;
+                }
+                self.poll(Vec::new());
+                let polled = {
+                    let mut g = self.sh.lock().unwrap();
+                    g.exhausted = false;
+                    g.polls_while_exhausted
+                };
+                self.sync_woken();
+                let m = self.model();
+                if polled > 0 && m.last == LastPoll::Pending && !m.woken {
+                    self.violate("lost-wakeup", "a stream yielded cooperatively (woke its own waker, returned Pending) but the receiver was left parked without a wake-up".into());
+                }
+            }
             Ev::PollW { nth, pos, ev } => self.poll(vec![(nth, pos, ev)]),
             Ev::PollW2 { a, b } => self.poll(vec![a, b]),
         }
@@ -560,6 +615,8 @@ impl Sim {
 
 #[derive(Clone, Debug, PartialEq, Eq, Hash)]
 pub struct Canon {
+    /// how many distinct tickets in play are below the counter (for correct code: all of them)
+    counter_rank: usize,
     heap: Vec<(usize, usize)>,
     streams: Vec<usize>,
     waker: bool,
@@ -592,6 +649,7 @@ pub fn canon(sim: &Sim) -> Canon {
         })
         .collect();
     Canon {
+        counter_rank: tickets.iter().filter(|t| **t < snap.counter).count(),
         heap,
         streams: snap.streams.clone(),
         waker: snap.waker,
@@ -651,6 +709,9 @@ pub fn enabled(cfg: &Config, m: &Model, plain: (u8, u8)) -> Vec<Ev> {
         if cfg.allow_remove && s.inserted && !s.remove_called && !s.dropped {
             v.push(Ev::Remove(i8));
         }
+    }
+    if cfg.coop_yield && m.s.iter().any(|s| s.inserted && !s.dropped) {
+        v.push(Ev::PollX);
     }
     if cfg.windows >= 1 && m.last != LastPoll::End {
         let wes = win_events(cfg, m);
@@ -904,7 +965,7 @@ pub fn hist_json(h: &[Ev]) -> Value {
 pub fn cfg_json(c: &Config) -> Value {
     json!({"name": c.name, "k": c.k, "items": c.items, "preload": c.preload, "allow_remove": c.allow_remove, "allow_close": c.allow_close,
            "windows": c.windows, "window_remove_close": c.window_remove_close, "max_depth": c.max_depth, "max_states": c.max_states,
-           "fairness": c.fairness, "fair_bound": c.fair_bound, "block_on_no_clients": c.block_on_no_clients})
+           "fairness": c.fairness, "fair_bound": c.fair_bound, "block_on_no_clients": c.block_on_no_clients, "coop_yield": c.coop_yield})
 }
 
 pub fn cfg_from_json(v: &Value) -> Option<Config> {
@@ -923,6 +984,7 @@ pub fn cfg_from_json(v: &Value) -> Option<Config> {
         fairness: v["fairness"].as_bool()?,
         fair_bound: v["fair_bound"].as_u64()? as u8,
         block_on_no_clients: v["block_on_no_clients"].as_bool()?,
+        coop_yield: v["coop_yield"].as_bool().unwrap_or(false),
     })
 }
 
@@ -947,6 +1009,9 @@ pub fn parse_ev(s: &str) -> Option<Ev> {
     let s = s.trim();
     if s == "Poll" {
         return Some(Ev::Poll);
+    }
+    if s == "PollX" {
+        return Some(Ev::PollX);
     }
     if let Some(r) = s.strip_prefix("PollW {") {
         // PollW { nth: 0, pos: 1, ev: Arrive(1) }
@@ -1021,7 +1086,7 @@ pub fn replay_print(cfg: &Config, hist: &[Ev]) -> Option<(String, String)> {
 }
 
 pub fn is_c06_class(c: &str) -> bool {
-    matches!(c, "lost-wakeup" | "receiver-waker-not-published" | "stuck-with-available-item" | "starvation" | "livelock" | "queue-ended")
+    matches!(c, "lost-wakeup" | "receiver-waker-not-published" | "stuck-with-available-item" | "starvation" | "livelock" | "queue-ended" | "livelock-on-self-waking-stream")
 }
 
 pub fn general_configs(thorough: bool) -> Vec<Config> {
@@ -1039,6 +1104,7 @@ pub fn general_configs(thorough: bool) -> Vec<Config> {
         fairness: false,
         fair_bound: 0,
         block_on_no_clients: true,
+        coop_yield: true,
     };
     let mut v = vec![
         Config { name: "k2-items2,2-remove-close-win1".into(), ..base.clone() },
@@ -1069,12 +1135,18 @@ pub fn fairness_configs(thorough: bool) -> Vec<Config> {
         fairness: true,
         fair_bound: 2,
         block_on_no_clients: true,
+        coop_yield: false,
     };
     let mut v = vec![
         Config { name: "fair-n2-busy5".into(), ..base.clone() },
         Config { name: "fair-n3-busy7".into(), k: 3, items: vec![7, 2, 2], preload: vec![7, 0, 0], fair_bound: 4, windows: 0, ..base.clone() },
     ];
+    // a stream that has been served several times and is parked, then another stream with a backlog joins:
+    // the returning stream must not wait for the whole backlog (stale tickets vs the counter)
+    v.push(Config { name: "fair-n2-late-insert".into(), items: vec![5, 5], preload: vec![5, 4], windows: 0, ..base.clone() });
     if thorough {
+        v.push(Config { name: "fair-n2-late-insert-win1".into(), items: vec![5, 5], preload: vec![5, 4], windows: 1, ..base.clone() });
+        v.push(Config { name: "fair-n3-late-insert".into(), k: 3, items: vec![5, 5, 3], preload: vec![5, 4, 3], fair_bound: 4, windows: 0, ..base.clone() });
         v.push(Config { name: "fair-n3-busy7-win1".into(), k: 3, items: vec![7, 2, 2], preload: vec![7, 0, 0], fair_bound: 4, windows: 1, ..base.clone() });
         v.push(Config { name: "fair-n3-busy7-close".into(), k: 3, items: vec![7, 2, 2], preload: vec![7, 0, 0], fair_bound: 4, windows: 0, allow_close: true, ..base.clone() });
         v.push(Config { name: "fair-n2-busy9".into(), items: vec![9, 3], preload: vec![9, 0], ..base.clone() });
